@@ -148,11 +148,20 @@ def gen_case(r, script, fail_scripts, logdir):
                 lines.append(r.choice(["", "   ", " \t"]))
             b.tag_line = line
             if ext == "md":
-                out.append("<!-- <block %s> -->\n" % render_attrs(attrs))
+                if r.random() < 0.35:
+                    # start tag spread over several lines: ctx.line is the line of its '<'
+                    out.append("<!-- <block\n")
+                    for k, v in attrs:
+                        out.append("  %s\n" % render_attrs([(k, v)]))
+                    out.append("> -->\n")
+                    extra_tag_lines = len(attrs) + 1
+                else:
+                    out.append("<!-- <block %s> -->\n" % render_attrs(attrs))
+                    extra_tag_lines = 0
                 for l in lines:
                     out.append(l + "\n")
                 out.append("<!-- </block> -->\n\n")
-                line += len(lines) + 3
+                line += len(lines) + 3 + extra_tag_lines
             else:
                 out.append("%s <block %s>\n" % (op, render_attrs(attrs)))
                 for l in lines:
